@@ -14,9 +14,10 @@ wallet's chain, and the check fails if it is ever false (`valid=1` in the op str
 -/
 import BytomModel.Model.Wallet
 import BytomModel.Lemmas.Wallet
+import BytomModel.Lemmas.Project
 
 namespace BytomModel.Props.C24
-open BytomModel.Model.Wallet BytomModel.Lemmas.Wallet
+open BytomModel.Model.Wallet BytomModel.Lemmas.Wallet BytomModel.Lemmas.Project
 
 /-- a reorganisation walk: attach a block on top of the wallet's chain, or detach its tip -/
 inductive Step
@@ -158,6 +159,55 @@ theorem attach_only_owned (P : Params) (h : Nat) (t : Tx) (db : DB) (id : Nat) (
     · rw [effect_untouched id A1 _ (fun op hop hk => tA1 ⟨op, hop, hk⟩)] at hnew
       exact absurd hnew hold
 
+
+/-! ### wallet-independent hypotheses: validity with respect to the global unspent-output set -/
+
+/-- every attached block spends only outputs of the GLOBAL unspent set of the chain it extends
+    (`rescan (allOf P)` = what an observer owning every program holds = the consensus UTXO set),
+    with the content it claims, and creates fresh, pairwise distinct output ids; no reference to
+    the wallet's own table. `needNoVote`: and it pays no vote output to a wallet program. -/
+def GWalkOK (P : Params) (needNoVote : Bool) : List Step → List Block → Prop
+  | [], _ => True
+  | .push b :: rest, chain =>
+    gvalidBlockB P b (rescan (allOf P) chain) = true ∧ (needNoVote = true → noOwnedVoteBlockB P b = true) ∧
+      GWalkOK P needNoVote rest (b :: chain)
+  | .pop :: rest, chain => GWalkOK P needNoVote rest chain.tail
+
+/-- global validity implies the wallet-side validity used above, for every wallet -/
+theorem gwalk_implies_walk (P : Params) (nv : Bool) : ∀ (steps : List Step) (chain : List Block),
+    GChainOK P chain → GWalkOK P nv steps chain → WalkOK P nv steps chain := by
+  intro steps
+  induction steps with
+  | nil => intro chain _ _; trivial
+  | cons st rest ih =>
+    intro chain hc hw
+    cases st with
+    | push b =>
+      obtain ⟨hv, hn, hrest⟩ := hw
+      exact ⟨(project_block P b _ _ (rel_rescan P chain hc) hv).1, hn, ih (b :: chain) ⟨hv, hc⟩ hrest⟩
+    | pop =>
+      cases chain with
+      | nil => exact ih [] trivial hw
+      | cons b c => exact ih c hc.2 hw
+
+/-- `wallet_eq_rescan_global`: for EVERY walk of attaches and detaches whose attached blocks are
+    valid with respect to the global unspent-output set of the chain they extend and pay no vote
+    output to a wallet program, the wallet equals a rescan of the resulting chain (identity,
+    asset, amount, program, account, vote) — for every wallet (program table) `P`. -/
+theorem wallet_eq_rescan_global (P : Params) (steps : List Step) (hw : GWalkOK P true steps []) :
+    CoreEq (walk P steps ([], [])).2 (rescan P (walk P steps ([], [])).1) :=
+  wallet_eq_rescan_partial P steps (gwalk_implies_walk P true steps [] trivial hw)
+
+/-- the wallet's scan of a globally valid chain is the owned projection of the global set:
+    the wallet holds an output iff it is globally unspent and its program is the wallet's -/
+theorem rescan_is_owned_projection (P : Params) (chain : List Block) (hc : GChainOK P chain) (id : Nat) :
+    (dbGet id (rescan P chain)).map core = ((dbGet id (rescan (allOf P) chain)).bind (owned P)).map core :=
+  rel_rescan P chain hc id
+
+example : GWalkOK f14Params true
+    [.push ⟨1, 0, 0, [⟨true, [⟨2, ⟨0, 2, 0, 0, 0, 0⟩, 0, 0⟩], [⟨1, 0, 0, 500, 1, 0⟩]⟩]⟩,
+     .push ⟨2, 1, 1, [⟨false, [⟨0, ⟨1, 0, 0, 500, 1, 0⟩, 1, 0⟩], [⟨2, 0, 0, 400, 1, 0⟩, ⟨3, 0, 0, 100, 2, 0⟩]⟩]⟩,
+     .pop] [] := by simp only [GWalkOK]; decide
 
 /-! ### the wallet's status bookkeeping follows the walk (AttachBlock never skips in updater order) -/
 
